@@ -3,7 +3,7 @@
 import json, glob, os
 print("| change | what it does (needs to manifest) | first evaluation | after strengthening |")
 print("|---|---|---|---|")
-for d in sorted(glob.glob("/verif/seeded/*/")):
+for d in sorted(glob.glob("/verif/seeded/C*/")):
     m = json.load(open(d + "meta.json"))
     res = m.get("results", [])
     def fmt(r):
